@@ -302,10 +302,23 @@ def c_layer(ctx, args):
     """a measurement layer on its own: forward is the direct measurement of Z on its qubits in the order given (same outcomes, log2prob, state and rank as state.measure on a
     copy with the same random stream); backward without a record replays the layer's OWN record and leaves the (pure) state as it is; a record of the wrong length or a
     missing record is an error"""
-    N, qs, t, seed = args
+    N, qs, t, seed = args[:4]
+    form = args[4] if len(args) > 4 else 'c'          # how the state's tableau is stored: C order | fortran | strided | int32 | int8
     from pyclifford import circuit as CI
     ly = CI.MeasureLayer(*qs, N=N)
-    s1, s2 = NP.STATE(t), NP.STATE(t)
+    if form in ('int32', 'int8'):
+        from pyclifford.stabilizer import StabilizerState
+        d_ = {'int32': np.int32, 'int8': np.int8}[form]
+        mk_ = lambda: StabilizerState(np.array([r_[0] for r_ in t[0]], dtype=d_), ps=np.array([r_[1] for r_ in t[0]], dtype=d_)).set_r(t[1])
+        s1, s2 = mk_(), mk_()
+    else:
+        NP.ROUTES[0] = False
+        NP.set_layout(form)
+        try:
+            s1, s2 = NP.STATE(t), NP.STATE(t)
+        finally:
+            NP.set_layout('c')
+            NP.ROUTES[0] = True
     NP.seed_numba(seed)
     ly.forward(s1)
     NP.seed_numba(seed)
@@ -377,7 +390,7 @@ def run(ctx):
         if it % 2 == 0:
             do(ctx, 'mcirc', [N, prog, t, seed, rng.choice(['end', 'early', 'both', 'after_first', 'each', 'each'])], nontrivial=('ml', it))
         do(ctx, 'order', [N, prog])
-        do(ctx, 'layer', [N, rng.sample(range(N), rng.randint(1, N)), gen.rtableau(rng, ctx.model, N, r=0 if rng.random() < 0.6 else None), rng.randrange(10 ** 6)], nontrivial=('ly', it))
+        do(ctx, 'layer', [N, rng.sample(range(N), rng.randint(1, N)), gen.rtableau(rng, ctx.model, N, r=0 if rng.random() < 0.6 else None), rng.randrange(10 ** 6), rng.choice(['c', 'c', 'fortran', 'strided', 'int32', 'int8'])], nontrivial=('ly', it))
         tp = gen.rtableau(rng, ctx.model, N, r=0)
         do(ctx, 'backward', [N, prog, tp, seed, rng.choice(['recorded', 'supplied', 'flipped', 'flipped', 'wrong_length', 'rerun', 'rerun'])], nontrivial=('b', it))
         do(ctx, 'postselect', [gen.rtableau(rng, ctx.model, N, r=0 if rng.random() < 0.85 else None), gen.rpauli(rng, N, herm=True, nonzero=True), rng.randint(0, 1)], nontrivial=('p', it))
